@@ -31,16 +31,30 @@ func (a *Num) Cmp(b *Num) int {
 	return a.X.Cmp(&b.X)
 }
 
+// exactIntContext is like [internal.BaseContext] but does not round.
+// Integers have arbitrary precision: the sum, difference and product of
+// two integers must not be rounded to the precision used for floats.
+var exactIntContext = internal.BaseContext.WithPrecision(0)
+
+// arithContext returns the decimal context for adding, subtracting or
+// multiplying a and b.
+func arithContext(a, b *Num) *internal.Context {
+	if a.K == IntKind && b.K == IntKind {
+		return &exactIntContext
+	}
+	return &internal.BaseContext
+}
+
 func (c *OpContext) Add(a, b *Num) Value {
-	return numOp(c, internal.BaseContext.Add, a, b)
+	return numOp(c, arithContext(a, b).Add, a, b)
 }
 
 func (c *OpContext) Sub(a, b *Num) Value {
-	return numOp(c, internal.BaseContext.Sub, a, b)
+	return numOp(c, arithContext(a, b).Sub, a, b)
 }
 
 func (c *OpContext) Mul(a, b *Num) Value {
-	return numOp(c, internal.BaseContext.Mul, a, b)
+	return numOp(c, arithContext(a, b).Mul, a, b)
 }
 
 func (c *OpContext) Quo(a, b *Num) Value {
